@@ -1,6 +1,33 @@
 (* C15 model driver: scripted allocation histories through the extracted tracker model.
    Case and output formats are described at the top of harness/c15.c. *)
-let zi s = z_of_int (int_of_string s)
+(* Decimal <-> Z without going through OCaml's 63-bit int: block sizes run up to 2^64-1 (harness: strtoul / %lu).
+   Short strings take the direct route; long ones are halved digit by digit (no Z arithmetic is extracted here). *)
+let z_of_string (s : string) : z =
+  if String.length s <= 17 then z_of_int (int_of_string s) else begin
+    let d = Array.init (String.length s) (fun i ->
+        let c = Char.code s.[i] - 48 in if c < 0 || c > 9 then failwith ("bad-number:" ^ s) else c) in
+    let n = Array.length d in
+    let zero () = Array.for_all (fun x -> x = 0) d in
+    let bits = ref [] in                        (* most significant bit first once the loop is done *)
+    while not (zero ()) do
+      let r = ref 0 in
+      for i = 0 to n - 1 do
+        let v = !r * 10 + d.(i) in d.(i) <- v / 2; r := v mod 2
+      done;
+      bits := !r :: !bits
+    done;
+    match !bits with
+    | [] -> Z0
+    | _ :: rest -> Zpos (List.fold_left (fun p b -> if b = 1 then XI p else XO p) XH rest)
+  end
+let string_of_pos (p : positive) : string =
+  let rec dbl carry = function
+    | [] -> if carry > 0 then [carry] else []
+    | x :: t -> let v = 2 * x + carry in (v mod 10) :: dbl (v / 10) t in
+  let rec go = function XH -> [1] | XO q -> dbl 0 (go q) | XI q -> dbl 1 (go q) in
+  String.concat "" (List.rev_map string_of_int (go p))
+let string_of_z = function Z0 -> "0" | Zpos p -> string_of_pos p | Zneg p -> "-" ^ string_of_pos p
+let zi s = z_of_string s
 let optbytes s = if s = "N" then None else Some (zbytes_of_hex s)
 let fields tok = String.split_on_char ',' tok
 
@@ -21,7 +48,7 @@ let parse_op tok =
   | ["D"] -> Dump
   | _ -> failwith ("bad-op:" ^ tok)
 
-let zs z = string_of_int (int_of_z z)
+let zs z = string_of_z z
 
 let show_out (o, cnt) =
   (match o with
@@ -39,9 +66,9 @@ let run = function
      | Fault x -> "FAULT:" ^ fault_name x
      | Ok (outs, s) ->
        let recs = List.map (fun r -> " " ^ zs r.r_ptr ^ ":" ^ zs r.r_size ^ ":" ^ hex_of_zbytes r.r_file ^ ":" ^ zs r.r_line) s.s_tab in
-       let live = List.sort compare (List.map (fun (p, sz) -> (int_of_z p, int_of_z sz)) s.s_heap) in
+       let live = List.sort compare (List.map (fun (p, sz) -> (int_of_z p, zs sz)) s.s_heap) in
        String.concat "" (List.map show_out outs) ^ "| T" ^ String.concat "" recs ^ " | H"
-       ^ String.concat "" (List.map (fun (p, sz) -> Printf.sprintf " %d:%d" p sz) live))
+       ^ String.concat "" (List.map (fun (p, sz) -> Printf.sprintf " %d:%s" p sz) live))
   | ["scn"; _build; _name; _n] -> "scn empty"
   | _ -> "DRIVER-ERROR:bad-case"
 let () = main_loop run
